@@ -11,10 +11,10 @@ PROPERTY = "C20"
 LEVEL = "exploration"
 RULE = ("(inventory) generated models of 0-6 nodes (items / categories / objects in a forest; every AssetType / InventoryType / "
         "FolderType / SaleType member; each optional field absent or present; nested metadata maps) serialised and parsed back in "
-        "the legacy text schema, legacy LLSD and AIS LLSD, at model level and through each node class, non-trivial = at least one "
+        "the legacy text schema, legacy LLSD and AIS LLSD, at model level and through each node class, under UTC and a non-UTC process time zone, non-trivial = at least one "
         "node; (animation) wire images of both format versions from a struct.pack reference encoder, 0-4 joints x 0-4 key frames, "
         "constraints, non-trivial = has key frames; (mesh) containers from a reference writer with raw u16/u8 binary fields in "
-        "every segment kind, non-trivial = a LOD with vertices; (transfers) payload sizes around the chunk boundaries x every "
+        "every segment kind, parsed fully and in pass-through mode, non-trivial = a LOD with vertices; (transfers) payload sizes around the chunk boundaries x every "
         "arrival sequence with duplicates up to n+2 arrivals for n <= 4 chunks, random orders beyond, through the real sender "
         "and both the packet handler and the request() pump, non-trivial = more than one chunk and reordered or duplicated")
 ASSUMPTIONS = [
